@@ -7,6 +7,7 @@ import Driver.Schema
 import Driver.Cli
 import Driver.Carve
 import Driver.SpecPage
+import Driver.WalIndex
 
 open SqliteDissect
 
@@ -26,6 +27,8 @@ def dispatch (toks : List String) : IO String := do
         pure (Driver.Arith.handle toks)
       else if op.startsWith "varint." || op.startsWith "serial." || op.startsWith "overflow." || op.startsWith "spec." then
         pure (Driver.Codec.handle toks)
+      else if op == "hdr.walindex" || op.startsWith "walindex." then
+        (try Driver.WalIndex.handle toks catch e => pure (some s!"io-error {e}"))
       else if op.startsWith "cell." || op.startsWith "ptrmap." || op.startsWith "hdr." then
         pure (Driver.Arith.handle toks)
       else if op.startsWith "carve." then
